@@ -40,6 +40,7 @@ func runC17(c *Ctx) {
 	c17NilHooks(c)
 	c17Shared(c)
 	c17Gating(c)
+	c17ScrapeErrorMetric(c)
 }
 
 func c17Options(c *Ctx) {
@@ -823,4 +824,59 @@ func c17UseAfterCheck(c *Ctx) {
 		}
 	}
 	c.R.Check(n >= 3, "R-C17-6", "module:ra-generation-sites", "", "", fmt.Sprintf("%d RA generation site(s)", n), ">= 3", "anchor-missing")
+}
+
+// c17ScrapeErrorMetric (R-C17-6, second clause): a *metricslite.ScrapeError
+// names the const metric the failure is reported against. metricslite panics
+// ("non-existent metric") when it does not name one registered with
+// ConstGauge, and the Prometheus collector runs outside net/http's recover:
+// a scrape would crash the daemon. Every ScrapeError built in constScrape
+// names a metric NewMetrics registers as a const gauge.
+func c17ScrapeErrorMetric(c *Ctx) {
+	nm := c.P.Func("internal/corerad", "NewMetrics")
+	cs := c.P.Method("internal/corerad", "Metrics", "constScrape")
+	if nm == nil || cs == nil {
+		return
+	}
+	consts := map[string]bool{}
+	for _, ci := range an.CallsIn(nm) {
+		cc := ci.Common()
+		name := ""
+		if cc.IsInvoke() {
+			name = cc.Method.Name()
+		} else if f := an.CalleeObj(cc); f != nil {
+			name = f.Name()
+		}
+		if name != "ConstGauge" || len(cc.Args) == 0 {
+			continue
+		}
+		for _, a := range cc.Args {
+			if s, ok := constString(c.XO.Of(a)); ok {
+				consts[s] = true
+				break
+			}
+		}
+	}
+	fn := c.fname(cs)
+	n := 0
+	for _, p := range c.pathsO("R-C17-6", cs, an.PathOpts{EmitCut: true}) {
+		if p.Ret == nil || exprIsNil(p.Results[0]) {
+			continue
+		}
+		var metric *an.Expr
+		p.Results[0].Walk(func(x *an.Expr) bool {
+			if metric == nil && x.Op == an.OpStruct && x.Typ != nil && strings.HasSuffix(typeStr(x.Typ), "metricslite.ScrapeError") {
+				metric = raHeader(x)["Metric"]
+			}
+			return true
+		})
+		if metric == nil {
+			continue
+		}
+		n++
+		name, isC := constString(metric)
+		c.R.Check(isC && consts[name], "R-C17-6", fn+":scrape-error-names-const-metric@"+lastAtomName(p), fn, c.pos(p.Ret.Pos()), fmt.Sprintf("ScrapeError.Metric = %s; const gauges: %d registered", metric, len(consts)),
+			"the name of a metric registered with ConstGauge in NewMetrics", "metricslite panics on a ScrapeError for a non-const metric: a failing scrape crashes the daemon")
+	}
+	c.R.Check(n >= 2 && len(consts) >= 5, "R-C17-6", fn+":scrape-error-sites", fn, c.pos(cs.Pos()), fmt.Sprintf("%d error return(s) with a ScrapeError, %d const gauge(s)", n, len(consts)), ">= 2 returns, >= 5 gauges", "anchor-missing")
 }
